@@ -146,7 +146,7 @@ fn abstract_alphabet(timeout: i64) -> Vec<[i64; 4]> {
         [0, 176, 97, 8],
         [0, 176, 7, 9],
         [0, 177, 6, 11],
-        [2, 0, 0, 0],
+        [0, 240, 6, 13],
         [3, 0, 0, 0],
         [4, timeout.min(1 << 40), 0, 0],
         [4, (timeout.min(1 << 40) - 1).max(0), 0, 0],
